@@ -155,6 +155,42 @@ def run(ctx):
     table(ctx, R, 'China95/LunarSect2 providers', [(nm, b, True) for nm in ('China95ChildLimitProvider', 'LunarSect2ChildLimitProvider') for b in births[::9]], strat, strat_orc,
           'minute-based strategies: 3 days=1y, 1 day=4mo, 12 min=1d (+ 1 min = 2h in sect 2), same addition routine', str, fn_site(p, 'China95ChildLimitProvider::get_info'))
 
+    # ---- the day / double-hour strategy ("3 days = 1 year, 1 day = 4 months, 1 double-hour = 10 days", as its doc comment states)
+    def slot(h):
+        return 11 if h == 23 else (h + 1) // 2       # double-hour of the civil day, monotone within the day (23:xx stays in the day's last slot)
+
+    def sect1(x):
+        b, fwd = x
+        cm = CalModel(I, terms, months)
+        n, s_ = CAL.jdn(*b[:3]), b[3] * 3600 + b[4] * 60 + b[5]
+        jie = min(j for j in jies if j > (n, s_)) if fwd else max(j for j in jies if j <= (n, s_))
+        ti = [k for k, v in terms.items() if v == jie][0]
+        prov = I.call('LunarSect1ChildLimitProvider::new', [])
+        info = I.method(prov, 'get_info', cm.solar_time(*b), cm.term_sv(ti[0], ti[1]))
+        return ((py(t.m(info, 'get_year_count')), py(t.m(info, 'get_month_count')), py(t.m(info, 'get_day_count')), py(t.m(info, 'get_hour_count')), py(t.m(info, 'get_minute_count'))), tup(t.m(info, 'get_end_time')))
+
+    def sect1_orc(x):
+        b, fwd = x
+        n, s_ = CAL.jdn(*b[:3]), b[3] * 3600 + b[4] * 60 + b[5]
+        jie = min(j for j in jies if j > (n, s_)) if fwd else max(j for j in jies if j <= (n, s_))
+        js = int(jie[1] + 0.5)
+        if (n, s_) > (jie[0], js):
+            (n0_, h0), (n1_, h1) = (jie[0], js // 3600), (n, b[3])
+        else:
+            (n0_, h0), (n1_, h1) = (n, b[3]), (jie[0], js // 3600)
+        dd, hd = n1_ - n0_, slot(h1) - slot(h0)
+        if hd < 0:
+            hd += 12
+            dd -= 1
+        mo = dd * 4 + (hd * 10) // 30
+        days_ = (hd * 10) % 30
+        yy, mo = divmod(mo, 12)
+        return ((yy, mo, days_, 0, 0), add_calendar(b, yy, mo, days_, 0, 0))
+    s1_births = [b for b in births[::11]] + [from_abs(abs_sec((Y, 6, 10 + k, 23, 30, 0))) for k in range(0, 12, 3)] + [from_abs(abs_sec((Y, 6, 11, hh_, 15, 0))) for hh_ in (0, 1, 22, 23)]
+    table(ctx, R, 'LunarSect1 provider', [(b, f_) for b in s1_births for f_ in (True, False)], sect1, sect1_orc,
+          'day / double-hour strategy: whole days x 4 months + whole double-hours x 10 days between the two instants (23:xx counts as the last double-hour of its civil day), same addition routine; never before birth',
+          str, fn_site(p, 'LunarSect1ChildLimitProvider::get_info'))
+
     # ---- fortunes: affine in index, direction by forward
     def fort(x):
         b, man, idx = x
@@ -217,6 +253,5 @@ def run(ctx):
 
     ctx.assumptions.append('numeric layer replaced by oracles: civil date <-> day number (C01), term instants (C05/C06), lunar month table (C02/C03)')
     ctx.not_decided.append('births whose limit ends inside October 1582: the addition routine does day-of-month arithmetic by month counts there (see known_findings.txt / DESIGN §5)')
-    ctx.not_decided.append('LunarSect1 strategy (double-hour based; its own exchange rule is not part of the statement)')
     return ('the child-limit pipeline (direction, governing Jie, exchange rates, calendar addition with chained carries, three strategies) and the fortune getters '
             'evaluated from the syntax tree on a scenario calendar for ~900 (birth, gender) points')
